@@ -52,3 +52,23 @@ package openapi
 //@   property C17
 //@   requires userTypesOK(tt)
 //@   modifies nothing
+
+// responses that share a status code (C17, panic clause)
+//@ pred responsesOK(rr []*catalog.HTTPResponse) := 0 <= rr.off && forallp(j, at(rr, j),
+//@     imp(rr.off <= j && j < rr.off + len(rr), at(rr, j) != nil && imp(at(rr, j).Body != nil, esOK(at(rr, j).Body.Schema))))
+//@ func makeResponseHeaders(hh)
+//@   attr trusted
+//@   modifies nothing
+//@ func concatenateDescription
+//@   attr trusted
+//@   modifies nothing
+//@ func formatToMediaType
+//@   attr trusted
+//@   modifies nothing
+//@ extern (github.com/jsightapi/jsight-schema-core/openapi.SchemaInfo).Annotation(i)
+//@   attr nopanic
+// (frame not claimed: the function builds local slices and a local map of slices)
+//@ func newResponseAnyOf(responses)
+//@   property C17
+//@   requires responsesOK(responses)
+//@   modifies anything
